@@ -283,8 +283,8 @@ def coq_eval_cases(tag, imports, cases, chunk=400, timeout=1500, preamble=""):
     while pending or running:
         while pending and len(running) < NPROC:
             k, fn = pending.pop(0)
-            p = subprocess.Popen(["coqc", "-noglob", "-Q", COQ, "MC", fn], cwd=d, env=ENV,
-                                 stdout=subprocess.PIPE, stderr=subprocess.STDOUT, text=True)
+            p = subprocess.Popen(["coqc", "-noglob", "-w", "-abstract-large-number", "-Q", COQ, "MC", fn], cwd=d, env=ENV,
+                                 stdout=open(fn + ".out", "w"), stderr=subprocess.STDOUT, text=True)
             running.append((k, fn, p, time.time()))
         still = []
         for k, fn, p, t0 in running:
@@ -294,7 +294,7 @@ def coq_eval_cases(tag, imports, cases, chunk=400, timeout=1500, preamble=""):
                 else:
                     still.append((k, fn, p, t0))
                 continue
-            out = p.stdout.read()
+            out = open(fn + ".out").read()
             if p.returncode != 0:
                 err = "coqc failed on %s:\n%s" % (fn, out[-2000:])
                 continue
